@@ -467,7 +467,68 @@ func ruleNoDataMeansError(c *Ctx, rule string) {
 			c.fail(rule, key, w.At(ret), "the error returned when no data is available may be nil ("+why+"): the caller would unmarshal zero bytes and deliver a fabricated empty message")
 		}
 		c.floor(rule, n, 1, "no-more-data returns in "+name)
+		// End-of-stream must not be reported for a cancelled receiver: cancel() discards queued messages.
+		// If some cancel of this stream type's receiver is not guarded by the marker CAS (a context watcher),
+		// the marker's error (possibly io.EOF) may be returned on the no-more-data path only under a
+		// ctx.Err() == nil test performed AFTER the dequeue.
+		if unguarded := c.unguardedReceiverCancel(side.marker, recvNamed(fn).Obj().Name()); unguarded != "" {
+			nM := 0
+			for _, ret := range returnsOf(fn) {
+				onPath := false
+				for _, f := range boolFactsAt(ret) {
+					if f.V == s.ok && !f.True {
+						onPath = true
+					}
+				}
+				if !onPath {
+					continue
+				}
+				t := returnTuple(ret)
+				errv := t[len(t)-1]
+				if errv == nil || !c.isMarkerErrorOrNil(errv, side.marker) {
+					continue
+				}
+				nM++
+				okCtx := false
+				for _, f := range factsAt(ret) {
+					x, op, y, isCmp := cmpFact(f)
+					if !isCmp || !isNilConst(y) || op != token.EQL {
+						continue
+					}
+					if call, isCall := stripConv(x).(*ssa.Call); isCall && call.Call.IsInvoke() && call.Call.Method.Name() == "Err" && dominates(s.deq, call) {
+						okCtx = true
+					}
+				}
+				c.check(okCtx, rule, fmt.Sprintf("%s: end-of-stream only for a receiver that was not cancelled (block %d)", name, ret.Block().Index), w.At(ret), "marker error returned only under ctx.Err() == nil tested after the dequeue", "the half-close marker's error (io.EOF after a client half-close) is returned on the no-more-data path without first re-testing the context after the dequeue, although "+unguarded+": when the RPC's context ends, queued messages are discarded and the handler is told the stream ended normally with an incomplete sequence")
+			}
+			c.floor(rule, nM, 1, "marker-error returns on the no-more-data path of "+name)
+		}
 	}
+}
+
+// unguardedReceiverCancel: a receiver.cancel() call on streams of the given type that is not dominated by
+// the success edge of the marker CAS ("" if none).
+func (c *Ctx) unguardedReceiverCancel(marker FieldRef, streamType string) string {
+	w := c.W
+	out := ""
+	for _, fn := range w.Funcs {
+		if isGenericTemplate(fn) {
+			continue
+		}
+		allInstrs(fn, func(in ssa.Instruction) {
+			call, ok := in.(ssa.CallInstruction)
+			if !ok || !call.Common().IsInvoke() || call.Common().Method.Name() != "cancel" {
+				return
+			}
+			if fr, _, ok := loadedField(call.Common().Value); !ok || fr.Type != streamType {
+				return
+			}
+			if g, _ := c.casGuard(in, marker, 0); !g {
+				out = "receiver.cancel() in " + w.Short(fn) + " (" + w.At(in) + ") runs without the terminal marker being set"
+			}
+		})
+	}
+	return out
 }
 
 // nonNilWithMarker extends A8 with: load of the marker holder's error under holder != nil.
